@@ -3,13 +3,14 @@ module verifmc
 go 1.21
 
 require (
+	github.com/flynn/noise v1.0.0
 	go.brendoncarroll.net/p2p v0.0.0
 	golang.org/x/crypto v0.9.0
+	google.golang.org/protobuf v1.28.0
 )
 
 require (
 	github.com/davecgh/go-spew v1.1.1 // indirect
-	github.com/flynn/noise v1.0.0 // indirect
 	github.com/golang/protobuf v1.5.3 // indirect
 	github.com/pmezard/go-difflib v1.0.0 // indirect
 	github.com/quic-go/quic-go v0.37.4 // indirect
@@ -19,7 +20,6 @@ require (
 	golang.org/x/sync v0.2.0 // indirect
 	golang.org/x/sys v0.8.0 // indirect
 	golang.zx2c4.com/wireguard v0.0.0-20220920152132-bb719d3a6e2c // indirect
-	google.golang.org/protobuf v1.28.0 // indirect
 	gopkg.in/yaml.v3 v3.0.1 // indirect
 )
 
@@ -27,7 +27,7 @@ require (
 	github.com/anishathalye/porcupine v1.3.0
 	github.com/pkg/errors v0.9.1 // indirect
 	go.brendoncarroll.net/stdctx v0.0.0-20241118190518-40d09f4d11e7 // indirect
-	go.brendoncarroll.net/tai64 v0.0.0-20241118171318-6e12d283d5e4 // indirect
+	go.brendoncarroll.net/tai64 v0.0.0-20241118171318-6e12d283d5e4
 	go.uber.org/atomic v1.7.0 // indirect
 	go.uber.org/multierr v1.6.0 // indirect
 	go.uber.org/zap v1.24.0
